@@ -6,6 +6,7 @@
 import GEVerif.Model.Sexp
 import GEVerif.Model.GrammarState
 import GEVerif.Drive.C05
+import GEVerif.Drive.C01
 
 namespace GEVerif.Drive.C10
 open GEVerif Sexp GEVerif.Drive GEVerif.GState
@@ -29,6 +30,8 @@ def handle : List Sexp → Option Sexp
       let (r, g') := retryCopy att ch (← sym.asNat?) g
       pure (list [match r with | some p => ofNat p | none => atom "none",
                   list (g'.alts.map fun (k, v) => list [ofNat k, ofNats v])])
+  -- what is creatable after a history is what the model creates from the (unchanged) declarations
+  | atom "create" :: rest => C01.handle (atom "create" :: rest)
   | rest => C05.handle rest
 
 end GEVerif.Drive.C10
